@@ -1,6 +1,7 @@
 package main
 
 import (
+	"fmt"
 	"go/ast"
 	"go/types"
 )
@@ -321,4 +322,242 @@ func ruleSharedDefaultsImmutable(c *Ctx) {
 		}
 	}
 	c.stat("shared_defaults", len(globals))
+}
+
+// R10.register-before-ack
+func init() {
+	register(&Rule{ID: "R10.register-before-ack", Props: []string{"C10"}, Floor: 1,
+		Text: "a subscription is acknowledged only after it is in the hub: in the function that serves a subscribed connection (found by role: it calls the pubsub method that stores the target into a hub), every call of a local reply closure that names a channel being subscribed — the variable handed to the registration, or an element of the slice handed to it — is reachable from the statement that selects 'subscribe' (un = false) only through the registration (path search on go/cfg with boolean correlation, so the unsubscribe edge is not taken). The client may publish, or another client's write may fire a fence, as soon as it has read the acknowledgement; an event in between finds no receiver and is lost",
+		Run:  ruleRegisterBeforeAck})
+}
+
+func ruleRegisterBeforeAck(c *Ctx) {
+	// the registration: a method of the pubsub type that stores into a map field named targets
+	var reg *types.Func
+	for _, fn := range c.AllFuncs("internal/server") {
+		if fn.Decl.Recv == nil || fn.Decl.Body == nil {
+			continue
+		}
+		info := fn.Info()
+		stores := false
+		ast.Inspect(fn.Decl.Body, func(n ast.Node) bool {
+			as, ok := n.(*ast.AssignStmt)
+			if !ok {
+				return true
+			}
+			for i, l := range as.Lhs {
+				ix, ok := ast.Unparen(l).(*ast.IndexExpr)
+				if !ok || i >= len(as.Rhs) {
+					continue
+				}
+				if fv := selField(info, ix.X); fv != nil && fv.Name() == "targets" && boolConst(info, as.Rhs[i]) == '1' {
+					stores = true
+				}
+			}
+			return true
+		})
+		if stores && isMethod(fn.Obj, modPath+"/internal/server", "pubsub", fn.Obj.Name()) {
+			reg = fn.Obj
+		}
+	}
+	if reg == nil {
+		c.und("anchors", 0, "no pubsub method stores a target into a hub")
+		return
+	}
+	n := 0
+	for _, fn := range c.AllFuncs("internal/server") {
+		if fn.Decl.Body == nil || fn.Obj == reg {
+			continue
+		}
+		info := fn.Info()
+		var regCalls []*ast.CallExpr
+		inspectNoLit(fn.Decl.Body, func(x ast.Node) bool {
+			if call, ok := x.(*ast.CallExpr); ok && callee(info, call) == reg {
+				regCalls = append(regCalls, call)
+			}
+			return true
+		})
+		if len(regCalls) == 0 {
+			continue
+		}
+		// channel variables: string arguments of the registration; for a slice handed over with "...",
+		// the value variables of the range loops over it
+		chans := map[types.Object]bool{}
+		for _, rc := range regCalls {
+			for _, a := range rc.Args {
+				id, ok := ast.Unparen(a).(*ast.Ident)
+				if !ok {
+					continue
+				}
+				o := info.ObjectOf(id)
+				if o == nil {
+					continue
+				}
+				if isStringType(o.Type()) {
+					chans[o] = true
+				}
+				if sl, ok := o.Type().Underlying().(*types.Slice); ok && isStringType(sl.Elem()) {
+					inspectNoLit(fn.Decl.Body, func(x ast.Node) bool {
+						if rs, ok := x.(*ast.RangeStmt); ok {
+							if rid, ok := ast.Unparen(rs.X).(*ast.Ident); ok && info.ObjectOf(rid) == o {
+								if vid, ok := rs.Value.(*ast.Ident); ok {
+									chans[info.ObjectOf(vid)] = true
+								}
+							}
+						}
+						return true
+					})
+				}
+			}
+		}
+		// local reply closures
+		closures := map[types.Object]bool{}
+		inspectNoLit(fn.Decl.Body, func(x ast.Node) bool {
+			if as, ok := x.(*ast.AssignStmt); ok && len(as.Lhs) == len(as.Rhs) {
+				for i, r := range as.Rhs {
+					if _, ok := r.(*ast.FuncLit); ok {
+						if id, ok := as.Lhs[i].(*ast.Ident); ok {
+							closures[info.ObjectOf(id)] = true
+						}
+					}
+				}
+			}
+			return true
+		})
+		fg := newFlowGraph(info, fn.Decl.Body)
+		isReg := func(nd ast.Node) bool {
+			for _, rc := range regCalls {
+				if containsNode(nd, rc) {
+					return true
+				}
+			}
+			return false
+		}
+		var acks []*ast.CallExpr
+		inspectNoLit(fn.Decl.Body, func(x ast.Node) bool {
+			call, ok := x.(*ast.CallExpr)
+			if !ok {
+				return true
+			}
+			id, ok := ast.Unparen(call.Fun).(*ast.Ident)
+			if !ok || !closures[info.ObjectOf(id)] {
+				return true
+			}
+			for _, a := range call.Args {
+				if aid, ok := ast.Unparen(a).(*ast.Ident); ok && chans[info.ObjectOf(aid)] {
+					acks = append(acks, call)
+					break
+				}
+			}
+			return true
+		})
+		if len(acks) == 0 {
+			c.und(funcName(fn.Obj), fn.Decl.Pos(), "the function registers subscriptions but no reply closure is called with the channel: the acknowledgement is not recognised")
+			continue
+		}
+		// the statements that select 'subscribe': a boolean local that guards the registration is assigned false
+		guardVars := map[types.Object]byte{} // the value the guard must have for the registration to run
+		for _, rc := range regCalls {
+			for _, f := range fg.DominatingFacts(fg.LocOf(rc)) {
+				if f.Tag != nil {
+					continue
+				}
+				if id, ok := ast.Unparen(f.E).(*ast.Ident); ok {
+					if o := info.ObjectOf(id); o != nil {
+						if f.Neg {
+							guardVars[o] = '0'
+						} else {
+							guardVars[o] = '1'
+						}
+					}
+				}
+			}
+		}
+		var starts []Loc
+		for _, b := range fg.G.Blocks {
+			if !fg.Reachable(b) {
+				continue
+			}
+			for i, nd := range b.Nodes {
+				as, ok := nd.(*ast.AssignStmt)
+				if !ok || len(as.Lhs) != len(as.Rhs) {
+					continue
+				}
+				for j, l := range as.Lhs {
+					id, ok := ast.Unparen(l).(*ast.Ident)
+					if !ok {
+						continue
+					}
+					if want, ok := guardVars[info.ObjectOf(id)]; ok && boolConst(info, as.Rhs[j]) == want {
+						starts = append(starts, Loc{b, i, nd})
+					}
+				}
+			}
+		}
+		if len(starts) == 0 {
+			starts = []Loc{{}}
+		}
+		for k, ack := range acks {
+			n++
+			key := fmt.Sprintf("%s→%s", funcName(fn.Obj), exprStr(ack.Fun))
+			if k > 0 {
+				key += fmt.Sprintf("#%d", k+1)
+			}
+			bad := false
+			var witness []ast.Node
+			for _, st := range starts {
+				// only selections of 'subscribe': the guard as assigned here lets the registration run
+				// the effect of the selecting statement itself
+				startFacts := map[identFact]bool{}
+				for g, want := range guardVars {
+					if as, ok := st.Node.(*ast.AssignStmt); ok {
+						for j, lh := range as.Lhs {
+							if id, ok := ast.Unparen(lh).(*ast.Ident); ok && info.ObjectOf(id) == g && j < len(as.Rhs) && boolConst(info, as.Rhs[j]) == want {
+								startFacts[identFact{g, false}] = want == '1'
+							}
+						}
+					}
+				}
+				reachReg, _ := fg.Reach(PathQuery{From: st, Correlate: true, Facts: startFacts, Target: func(l Loc) bool { return isReg(l.Block.Nodes[l.Idx]) }})
+				if !reachReg {
+					continue
+				}
+				r, w := fg.Reach(PathQuery{From: st, Correlate: true, Facts: startFacts,
+					Target: func(l Loc) bool { return containsNode(l.Block.Nodes[l.Idx], ack) },
+					Avoid: func(l Loc) bool {
+						nd := l.Block.Nodes[l.Idx]
+						if isReg(nd) {
+							return true
+						}
+						// the next selection (the next command) ends the scope of this one
+						switch x := nd.(type) {
+						case *ast.AssignStmt:
+							for _, lh := range x.Lhs {
+								if id, ok := ast.Unparen(lh).(*ast.Ident); ok {
+									if _, isGuard := guardVars[info.ObjectOf(id)]; isGuard {
+										return true
+									}
+								}
+							}
+						case *ast.ValueSpec:
+							for _, nm := range x.Names {
+								if _, isGuard := guardVars[info.ObjectOf(nm)]; isGuard {
+									return true
+								}
+							}
+						}
+						return false
+					}})
+				if r {
+					bad, witness = true, w
+					break
+				}
+			}
+			c.checkPath(!bad, key, ack.Pos(), witness, "the acknowledgement of a subscription is reachable only through its registration in the hub",
+				"the acknowledgement of a subscription can be written before the target is registered in the hub: a PUBLISH (or a geofence event) that the client issues after reading the acknowledgement finds no receiver and is lost")
+		}
+	}
+	if n == 0 {
+		c.und("sites", 0, "no function registers subscriptions")
+	}
 }
